@@ -32,6 +32,7 @@ def c01(ctx):
     n, b = scale(ctx, (2500, 4), (6000, 16))
     sem.trace_batches(ctx, "mixed", "MachineTrace_C01.cfg", n, b)
     sem.trace_batches(ctx, "multi", "MachineTrace_C01.cfg", n, b)
+    sem.scale_sem(ctx, "multi", "MachineTrace_C01.cfg", scale(ctx, 1500, 15000))
     return ctx.finish("model_checking", sem.NONTRIV_RULE)
 
 
@@ -51,6 +52,7 @@ def c03(ctx):
     ctx.tlc_mc("SemMC", "SemMC_src_%s.cfg" % ctx.tier, label="C03_Sem capacity lemma on the source family (design level)")
     n, b = scale(ctx, (2500, 6), (6000, 24))
     sem.trace_batches(ctx, "exact", "MachineTrace_C03.cfg", n, b)
+    sem.scale_sem(ctx, "exact", "MachineTrace_C03.cfg", scale(ctx, 1500, 15000))
     return ctx.finish("model_checking", sem.NONTRIV_RULE)
 
 
@@ -60,6 +62,7 @@ def c04(ctx):
     ctx.tlc_mc("SemMC", "SemMC_src_%s.cfg" % ctx.tier, label="C04_Sem greedy-draw lemmas on the source family (design level)")
     n, b = scale(ctx, (2500, 6), (6000, 24))
     sem.trace_batches(ctx, "src", "MachineTrace_C04.cfg", n, b)
+    sem.scale_sem(ctx, "src", "MachineTrace_C04.cfg", scale(ctx, 1500, 15000))
     return ctx.finish("model_checking", sem.NONTRIV_RULE)
 
 
@@ -69,6 +72,7 @@ def c05(ctx):
     ctx.tlc_mc("SemMC", "SemMC_dst_%s.cfg" % ctx.tier, label="C05_Sem clause-by-clause lemmas on the destination family (design level)")
     n, b = scale(ctx, (2500, 6), (6000, 24))
     sem.trace_batches(ctx, "dst", "MachineTrace_C05.cfg", n, b)
+    sem.scale_sem(ctx, "dst", "MachineTrace_C05.cfg", scale(ctx, 1500, 15000))
     return ctx.finish("model_checking", sem.NONTRIV_RULE)
 
 
@@ -379,7 +383,7 @@ def replay(path):
             return 0
         if rp["kind"] == "scale":
             print(json.dumps(rp.get("case"), indent=1)[:3000])
-            return CHECKS["C06"](Ctx("C06", "quick", int(rp.get("seed", 1))))
+            return CHECKS[prop](Ctx(prop, "quick", int(rp.get("seed", 1))))
         if rp["kind"] in ("conc", "race"):
             print("re-run: VERIF_SEED=%s ./vcheck C11 (the corpus is regenerated from the seed); recorded case:" % rp.get("seed"))
             print(json.dumps(rp.get("case", rp.get("report")), indent=1)[:3000])
